@@ -43,7 +43,7 @@ func (e *Engine) VerifyFunc(b Bound) (u *Unit) {
 	fr := u.newFrame(fn, 0, nil)
 	fr.top = true
 	fr.contract = c
-	entry := &state{over: map[string]string{}, base: &entryProv{tag: "entry", cache: map[string]string{}}}
+	entry := &state{over: map[string]string{}, base: &entryProv{tag: "entry", cache: map[string]string{}}, u: u}
 	alloc0 := entry.get(u, allocKey)
 	mkParam := func(name string, t types.Type, isRecv bool) Val {
 		srt := u.sortOf(t)
